@@ -11,7 +11,7 @@
    READER.  `BytesReader` is a pair of cursors `(start, end)` over ONE immutable array `bs`; every
    reading function below takes the array, the current `start` (and `end_` where the Rust looks at it)
    and returns the value together with the new `start`.  `end` is only ever changed by `read_len`,
-   which restores it before returning `Ok`, so it is a parameter and not part of the result.  (When a
+   which restores it before returning `Ok`, so it is an argument and not part of the result.  (When a
    closure fails, `?` leaves `end` un-restored, but the error is propagated to the caller of
    `Codec::decode` and the reader is dropped.)
 
